@@ -414,6 +414,10 @@ def _make_data(nptdms, d):
             a = big[::2]
         if d.get('be'):
             a = a.astype(a.dtype.newbyteorder('>'))
+        elif d['dtype'] in ('<i8', '<u8') and len(d['hex']) % 48 == 0:
+            # the long-long spelling of the same 64 bit type (np.frombuffer(buf, '<q'), np.longlong, array.array('q')): equal
+            # as a dtype, different as a type object
+            a = a.astype(np.dtype('q' if d['dtype'] == '<i8' else 'Q'))
         if d.get('arr') == 'reversed':
             a = a[::-1].copy()[::-1]          # the same values through a negative stride
         elif d.get('arr') == 'readonly':
